@@ -109,6 +109,9 @@ def adversarial(rng, doc):
         "nan-and-infinity-operands": ("rule x {\n let n = parse_float(\"NaN\")\n %%n == 1.5\n %%n < 2.0 or %%n >= 0.5\n %%n in [1.5, 2.5]\n %%n == %%n\n not %%n != 0.0\n %%n in r[0.0, 1.0]\n"
                                       " let i = parse_float(\"-inf\")\n %%i > 1.0 or %%i == %%i\n %%i in r(0.0, 5.0]\n %s == %%n\n %s < %%i\n}") % (k, k),
         "nan-document": "rule x {\n a == 1.5\n a < 2.0 or a >= 0.5\n l[*] in [1.5, 2.5]\n a == l[0]\n some l[*] == a\n m.k <= 0.0\n a in r[0.0, 1.0]\n l[*] != a\n}",
+        # quoted keys that begin with the variable sigil (`%`), keys that look like other tokens
+        "quoted-key-percent": "rule x {\n %s.\"%% used\" exists or %s exists\n}\nrule y {\n %s['%%'] == 3\n}\nrule z {\n \"%%\" exists\n %s.\"%%1a\" !exists\n}" % (k, k, k, k),
+        "quoted-key-odd-tokens": "rule x {\n %s.\"*\" exists or %s.\"[*]\" exists\n %s.\"this\" !exists or %s.\"keys\" exists\n}\nrule y {\n \"\" exists or %s.\"\" exists\n %s.\"a.b\" exists or %s.\" \" exists\n}" % (k, k, k, k, k, k, k),
         "wrong-arity": "rule p(a, b) { %%a == %%b }\nrule x { p(%s) }" % k,
         "unknown-param-rule": "rule x { nosuch(%s) }" % k,
         "unknown-variable": "rule x { %%nosuch == 1 }",
